@@ -372,6 +372,8 @@ class Interp:
         self.extra_axioms = sym.EXTRA
         self.protect = {}                 # id(obj) -> label : user data objects (frame obligations)
         self.quiet = 0                    # > 0 while a lazily represented comprehension element is re-evaluated
+        self.in_closure = 0               # > 0 while the element expression of a comprehension is evaluated at a generic position
+        self.range_guards = []            # position ranges of comprehensions whose element is being probed (hypotheses of its obligations only)
 
     # ---------------------------------------------------------------- bookkeeping
     def assume(self, f):
@@ -379,7 +381,7 @@ class Interp:
         self.pc.append(f)
 
     def guard_formula(self):
-        gs = [to_bool(g) for g in self.guards]
+        gs = [to_bool(g) for g in self.guards] + list(self.range_guards)
         for lc in self.loops:
             gs.append(lc.dom)
             gs.append(z3.Not(lc.skip))
@@ -959,6 +961,8 @@ class Interp:
             if opname == 'Add' and isinstance(b, Seg) and b.kind == 'str' and isinstance(a, (str, RepStr, FnStr)):
                 return self.seg_append(as_seg('str', a), b)
             raise Unsupported('operation on accumulator')
+        if opname == 'Add' and sym._is_name(a) and sym._is_name(b) and (is_z3(a) or is_z3(b)):
+            return binop(opname, a, b)          # concatenation of names
         if isinstance(a, (RepStr, FnStr)) or isinstance(b, (RepStr, FnStr)) or (isinstance(a, str) and is_z3(b)) or (isinstance(b, str) and is_z3(a) and b and opname == 'Mult'):
             return self.str_op(opname, a, b)
         if isinstance(a, str) and isinstance(b, (Seg, RepStr, FnStr)):
@@ -2228,8 +2232,10 @@ class Interp:
             return self.ev(e.body if cb else e.orelse, frame)
         if isinstance(c, Havoc):
             return c
-        if not self.loops and not self.guards:
+        if not self.loops and not self.guards and not self.in_closure:
             return self.ev(e.body if self.decide(c) else e.orelse, frame)
+        # (inside a lazily represented comprehension element the condition is about a generic position: never a
+        # path decision, always a conditional value)
         self.guards.append(c)
         try:
             a = self.ev(e.body, frame)
@@ -2283,17 +2289,21 @@ class Interp:
             def f_eval(i):
                 fr = dict(frame)
                 fr['env'] = dict(snapshot)
-                self.assign(gen.target, getitem(i), fr)
-                return self.ev(e.elt, fr)
+                self.in_closure += 1
+                try:
+                    self.assign(gen.target, getitem(i), fr)
+                    return self.ev(e.elt, fr)
+                finally:
+                    self.in_closure -= 1
             # Python evaluates the comprehension eagerly: the safety obligations of the element expression (index
             # bounds, keys) are due once, for every position of the range -- not whenever the lazily represented
             # array is read later (possibly from a postcondition, at an arbitrary term)
             probe = z3.Int(fresh_name('lc'))
-            self.guards.append(z3.And(probe >= 0, probe < lift(n)))
+            self.range_guards.append(z3.And(probe >= 0, probe < lift(n)))
             try:
                 f_eval(probe)
             finally:
-                self.guards.pop()
+                self.range_guards.pop()
 
             def f(i):
                 self.quiet += 1
@@ -2345,8 +2355,12 @@ class Interp:
         def at(i, what):
             fr = dict(frame)
             fr['env'] = dict(snapshot)
-            self.assign(gen.target, getitem(i), fr)
-            return self.ev(what, fr)
+            self.in_closure += 1
+            try:
+                self.assign(gen.target, getitem(i), fr)
+                return self.ev(what, fr)
+            finally:
+                self.in_closure -= 1
         return CompMap(lift(n), lambda i: at(i, e.key), lambda i: at(i, e.value))
 
     def ev_Starred(self, e, frame):
@@ -2441,7 +2455,13 @@ class Interp:
                     self.exec_block(h.body, frame)
                     break
             else:
+                # no handler: the finally block runs, then the exception propagates
+                self.exec_block(st.finalbody, frame)
                 raise
+        except (_Return, _Continue, _Break):
+            # leaving the try block by return / continue / break: the finally block runs first
+            self.exec_block(st.finalbody, frame)
+            raise
         else:
             self.exec_block(st.orelse, frame)
         self.exec_block(st.finalbody, frame)
